@@ -1,3 +1,4 @@
+import BtcModel.Model.Json
 import Driver.Util
 import BtcModel.Model.Transform
 
@@ -44,14 +45,43 @@ partial def parseMembers : List Char → List (String × Json) → Option (List 
     | _ => none
 end
 
+mutual
+def jsonBeq : Json → Json → Bool
+  | .null, .null => true
+  | .bool a, .bool b => a == b
+  | .uint a, .uint b => a == b
+  | .otherNum, .otherNum => true
+  | .str a, .str b => a == b
+  | .arr a, .arr b => listBeq a b
+  | .obj a, .obj b => membersBeq a b
+  | _, _ => false
+def listBeq : List Json → List Json → Bool
+  | [], [] => true
+  | x :: xs, y :: ys => jsonBeq x y && listBeq xs ys
+  | _, _ => false
+def membersBeq : List (String × Json) → List (String × Json) → Bool
+  | [], [] => true
+  | (k, x) :: xs, (k', y) :: ys => k == k' && jsonBeq x y && membersBeq xs ys
+  | _, _ => false
+end
+
+/-- The body is parsed by the MODEL's own UTF-8 validator and JSON parser (`Btc.Json.parseModel`);
+    the value the real `serde_json` produced (protocol text `parsed`) is only used as a cross-check:
+    any difference marks the line with `!json`. -/
 def stepTransform (ep status nh body parsed : String) : String :=
   match Endpoint.ofName? ep with
   | none => "bad-op"
   | some e =>
-    let pj : Option Json := if parsed == "X" then none else (parseJsonText parsed.toList).map (·.1)
+    let given : Option Json := if parsed == "X" then none else (parseJsonText parsed.toList).map (·.1)
     let bodyBytes := if body == "-" then [] else hexToBytes body
-    let r := transform (fun _ => pj) e
+    let own : Option Json := Btc.Json.parseModel bodyBytes
+    let same := match own, given with
+      | none, none => true
+      | some a, some b => jsonBeq a b
+      | _, _ => false
+    let r := transform (fun _ => own) e
       { status := status.toNat!, headers := (List.range nh.toNat!).map (fun i => (toString i, "")), body := bodyBytes }
-    s!"status={r.status} headers={r.headers.length} body={if r.body.isEmpty then "-" else bytesToHex r.body}"
+    s!"status={r.status} headers={r.headers.length} body={if r.body.isEmpty then "-" else bytesToHex r.body}" ++
+      (if same then "" else " !json")
 
 end Driver
